@@ -121,6 +121,14 @@ def execute(R, op, tmp, opened=None):
                     declared.add(pb)
                     other = list(getattr(R.treeinput, op['b']['fmt'])(
                         pb, 'utf-8', **op['b']['opts']))
+                if op.get('prewrite'):
+                    # every tree is written once before anything else is
+                    # done to it (a preview, a backup): writing leaves no
+                    # trace that a later step could see
+                    bank = list(bank)
+                    sink = io.StringIO()
+                    for t in bank:
+                        getattr(R.treeoutput, op['prewrite'])(t, sink)
                 for t in bank:
                     for name in op['names']:
                         t = getattr(R.transform, name)(t)
